@@ -197,10 +197,32 @@ def neutralise(prog, trigger_forms, replacement):
     raise NotImplementedError
 
 
+def pred_finally_supersedes(prog):
+    """A finally block of the function's own scope contains return / raise / yield / break /
+    continue: it can supersede a return (or exception) that is already under way."""
+    fdef = _find_f(ast.parse(prog.src))
+    for n in _own_nodes(fdef):
+        if isinstance(n, ast.Try) and n.finalbody:
+            stack = list(n.finalbody)
+            while stack:
+                m = stack.pop()
+                if isinstance(m, (ast.Return, ast.Raise, ast.Yield, ast.YieldFrom, ast.Break, ast.Continue)):
+                    return True
+                for ch in ast.iter_child_nodes(m):
+                    if not isinstance(ch, (ast.FunctionDef, ast.Lambda, ast.ClassDef)):
+                        stack.append(ch)
+    return False
+
+
+PREDICATES = {"finally-supersedes": pred_finally_supersedes}
+
+
 def attribute(prop, v, prog, part, differs):
     listed = open_findings(prop)
     for fid, e in listed.items():
         m = e.get("match", {})
+        if m.get("predicate") and not PREDICATES[m["predicate"]](prog):
+            continue
         forms = set(m.get("forms", []))
         if forms and not (forms & set(prog.forms)):
             continue
